@@ -1,5 +1,6 @@
 import Starcal.RaceA
 import Starcal.Serial
+import Starcal.Refine
 import Starcal.Gen.LockSeq
 import Starcal.Gen.LockSkel
 /-! # C16 — thread-safe set: every operation is atomic under concurrency (race-free)
@@ -19,11 +20,14 @@ of any program of the 18 operations that runs to completion leaves the memory an
 operation's results exactly as running the operations one at a time does, in the order of their
 first releases; each operation takes effect between its first action and its return
 (`C16_effect_between_call_and_return`), so that order is consistent with real time.
-**Partial** in this respect: the machine of `Serial.lean` uses the plain reader/writer lock, whose
-executions include those of the writer-preferring lock of `Lock.lean` (the announcement is a stutter
-step that only removes schedules); that inclusion is argued in the file header, not proved in Lean. The Go scheduler and the memory model below
-`sync.RWMutex` are not modelled: the lock is assumed to provide the ordering its documentation
-promises. -/
+The machine of `Serial.lean` uses the plain reader/writer lock; `Refine.lean` proves that every
+execution of the writer-preferring machine of `Lock.lean` (the one `C16_no_race` and C17 are about)
+is matched step for step by an execution of it (an announcement is a stutter step, returns are
+inserted, the stronger guards plus the exclusion invariant imply the weaker ones), so
+`C16_linearizable_writer_preferring` states the result for the writer-preferring lock.
+What stays outside: the Go scheduler and the memory model below `sync.RWMutex` (the lock is assumed
+to provide the ordering its documentation promises), and that each real operation's effect on a
+set IS a function of the values it reads under the lock (that is C15's subject). -/
 namespace Starcal.Props
 open Starcal.Lock Starcal.Gen Starcal.Serial
 
@@ -87,6 +91,25 @@ theorem C16_linearizable {D L : Type} (S : Serial.Sem D L) (progs : Nat → List
   apply Serial.serializable S progs l0 m0 _ s hr hdone
   intro t c hc
   have hm := hprog t c hc
+  unfold opSeqs at hm
+  obtain ⟨e, he, rfl⟩ := List.mem_map.mp hm
+  exact ⟨List.all_eq_true.mp C16_ops_disciplined e he, List.all_eq_true.mp C16_ops_two_phase e he⟩
+
+/-- **linearizability under the writer-preferring lock**: whenever the writer-preferring machine
+    (the model of Go's `sync.RWMutex` used for C17 and for `C16_no_race`) runs any program of the 18
+    operations to completion, the machine with data follows it step for step — same locks held, same
+    actions left in every goroutine (`Serial.Rel`) — to a finished state whose memory and results
+    are those of running the operations one at a time in the order in which they took effect -/
+theorem C16_linearizable_writer_preferring {D L : Type} (S : Serial.Sem D L) (progs : List (List (List Act)))
+    (h : IsProgram progs) (l0 : Nat → L) (m0 : Nat → D) (ls : List Thread)
+    (hr : Reach (startState progs) ls) (hdone : ∀ th ∈ ls, th.prog = []) :
+    ∃ ss : Serial.St D L, Serial.Reach S (Serial.init (Serial.progsOf progs) l0 m0) ss ∧ Serial.Rel ls ss ∧
+      (∀ t, (ss.th t).prog = []) ∧
+      Serial.runSerial S { progs := Serial.progsOf progs, loc := l0, mem := m0 } ss.sched =
+        { progs := fun _ => [], loc := fun t => (ss.th t).loc, mem := ss.mem } := by
+  apply Serial.serializable_wp S progs l0 m0 _ ls hr hdone
+  intro calls hc c hcc
+  have hm := h calls hc c hcc
   unfold opSeqs at hm
   obtain ⟨e, he, rfl⟩ := List.mem_map.mp hm
   exact ⟨List.all_eq_true.mp C16_ops_disciplined e he, List.all_eq_true.mp C16_ops_two_phase e he⟩
